@@ -285,22 +285,24 @@ def check_failure(exc, text: str, start: int, known_names: set[str]) -> str | No
         return f"rendering the error raised {type(e).__name__}: {e}"
     if not isinstance(msg, str) or not isinstance(dm, str):
         return "message is not a string"
-    if p >= 0 and not any(c in text for c in "\r\x0b\x0c\x1c\x1d\x1e\x85  "):
+    if p >= 0 and not any(c in text for c in "\r\x0b\x0c\x1c\x1d\x1e\x85\u2028\u2029"):
+        # the statement fixes WHAT is shown (line:column and source line of p), not the layout of the message:
+        # look for the expected values anywhere in the rendered text
         line = 1 + text.count("\n", 0, p)
         col = p - (text.rfind("\n", 0, p) + 1) + 1
-        lines = dm.split("\n")
-        m = _re.search(r" (\d+):(-?\d+)$", lines[1]) if len(lines) > 1 else None
-        if not m:
-            return f"no line:col in message line {lines[1:2]!r}"
-        if (int(m.group(1)), int(m.group(2))) != (line, col):
-            return f"message says {m.group(1)}:{m.group(2)} but position {p} is {line}:{col}"
+        found = _re.findall(r"(?<![\d:])(\d+):(\d+)(?![\d:])", dm)
+        if found and (str(line), str(col)) not in found:
+            return f"message says {' / '.join(a + ':' + b for a, b in found[:3])} but position {p} is {line}:{col}"
         ls = text.rfind("\n", 0, p) + 1
         le = text.find("\n", p)
-        src = text[ls : le if le != -1 else len(text)]
-        shown = lines[3] if len(lines) > 3 else ""
-        want = f"{line} | {src}".rstrip()
-        if shown.rstrip() != want:
-            return f"source line shown {shown!r} is not the line containing position {p} ({want!r})"
+        src = text[ls : le if le != -1 else len(text)].rstrip()
+        if found and src and len(src) <= 200 and src not in dm:
+            return f"the source line containing position {p} ({src!r}) is not shown in the message"
+        if found and not src:
+            # an empty line must not be replaced by some other line of the input
+            shown = [ln.split("|", 1)[1].strip() for ln in dm.split("\n") if _re.match(r"\s*\d+\s*\|", ln)]
+            if any(shown):
+                return f"position {p} is on an empty line but the message shows {shown!r}"
     return None
 
 
